@@ -36,7 +36,25 @@ def sig_nested(c, i, m, rec, p):
     return sum(1 for a in chain if a.startswith("j")) >= 2 and (p.startswith("fail:passed:") or p.startswith("fail:order:"))
 
 
+def shrink(case):
+    """candidates with fewer events: drop halves, then single events (a case is `cmd 12 params nev (src stream spec)*`)"""
+    t = case.split()
+    head, n, ev = t[:13], int(t[13]), t[14:]
+    evs = [ev[k:k + 3] for k in range(0, len(ev), 3)]
+    out = []
+    def mk(sub):
+        return " ".join(head + [str(len(sub))] + [x for e in sub for x in e])
+    if n > 3:
+        out.append(mk(evs[: n // 2])); out.append(mk(evs[n // 2:]))
+    for k in range(n):
+        if n > 1:
+            out.append(mk(evs[:k] + evs[k + 1:]))
+    return out
+
+
 CFG = {
+    "shrink": shrink,
+    "shrink_budget": 80,
     "manifest": {
         "text": "Proof: Lean model M1 of the commit path (acceptance, drops, main + dead-queue batchers, retry exhaustion, commit loop) as a transition system; theorems frontier_safe_partial / frontier_acked_if_never_given_up / restart_never_skips hold for every op list (every interleaving, batch size, worker count, failure pattern) without a dead queue; the full statement is refuted by a proved counterexample with a dead queue (known finding). Tie: the real pipeline runs under a harness input, scripted actions + the real join plugin and an output on the real RetriableBatcher; its boundary trace (logged inside the serialising locks) is replayed through the model's step relation and the Spec oracle is evaluated on the trace itself.",
         "note": "Trusted: Lean kernel + standard axioms; fdmodel compilation; harness and trace hooks (verif tag). Assumed: Go mutex/cond/channel semantics; 'finished' = send returned nil or the error callback was invoked after the configured retries. The hand-over order guard of `add` is the interface to the stream/processor layer (checked on every trace; proved from the stream protocol in M2 where available). Not modelled: Spawn/split children, action internals.",
